@@ -31,8 +31,8 @@ RULE = (
     "(out-of-order end) a hand-driven suspended call of another object is closed / cancelled / finalised / completed inside a method "
     "whose invariant is temporarily broken; (faulted __new__) constructions by __new__ alone that raise or cannot be bound; (line-level "
     "interrupts) sys.monitoring LINE events in icontract/_checkers.py raise a BaseException before EVERY executed line outside "
-    "finally/except bodies of 16 fixed calls (function, async function, constructor, method, async method, property, __len__, SETATTR "
-    "class, __new__-only class; satisfied and violated), each followed by the state monitor and 13 follow-up calls; a repr fault of kind Exception may be absorbed by the "
+    "finally/except bodies of 23 fixed calls (function, async function, constructor, method, async method, property, __len__, SETATTR "
+    "class, __new__-only class; satisfied and violated), each followed by the state monitor and 16 follow-up calls; a repr fault of kind Exception may be absorbed by the "
     "repr machinery if the contract's own violation error is raised. Non-trivial = faulted run (each is a distinct (program, "
     "scenario, point, kind)); exhaustive over the points of the generated programs."
 )
@@ -632,6 +632,26 @@ class A(icontract.DBC):
         return self.x
 
 
+class B(A):
+    """An override with a weaker precondition group, a snapshot and postconditions of its own; an async method with contracts."""
+
+    @icontract.require(lambda y: y < -10)
+    @icontract.snapshot(lambda self: self.x, name="x")
+    @icontract.ensure(lambda self, OLD: self.x == OLD.x)
+    def m(self, y):
+        return self.x + abs(y)
+
+    @icontract.require(lambda y: y > 0)
+    @icontract.ensure(lambda result: result > 0)
+    async def am2(self, y):
+        return self.x + y
+
+    @staticmethod
+    @icontract.require(lambda z: z > 0)
+    def st(z):
+        return z
+
+
 @icontract.invariant(lambda self: self.x > 0, check_on=icontract.InvariantCheckEvent.ALL)
 class S:
     def __init__(self, x=1):
@@ -735,10 +755,13 @@ def run_line_faults(w) -> None:
         a = mod.A()
         broken = mod.A()
         s_obj = mod.S()
+        b = mod.B()
         calls = [
             ("f(1)", lambda: mod.f(1)), ("f(-1)", lambda: mod.f(-1)), ("af(1)", lambda: mod.af(1)), ("af(-1)", lambda: mod.af(-1)),
             ("A()", lambda: mod.A()), ("A(-1)", lambda: mod.A(-1)), ("a.m(1)", lambda: a.m(1)), ("a.m(-1)", lambda: a.m(-1)),
             ("a.am(1)", lambda: a.am(1)), ("a.p", lambda: a.p), ("a.p = 2", lambda: setattr(a, "p", 2)), ("len(a)", lambda: len(a)),
+            ("b.m(1)", lambda: b.m(1)), ("b.m(-20)", lambda: b.m(-20)), ("b.m(-5)", lambda: b.m(-5)), ("b.am2(1)", lambda: b.am2(1)),
+            ("b.am2(-1)", lambda: b.am2(-1)), ("B.st(1)", lambda: mod.B.st(1)), ("B.st(-1)", lambda: mod.B.st(-1)),
             ("broken.m(1)", lambda: broken.m(1)), ("s.x = 3", lambda: setattr(s_obj, "x", 3)), ("N(1)", lambda: mod.N(1)), ("N(-1)", lambda: mod.N(-1)),
         ]
 
@@ -747,7 +770,9 @@ def run_line_faults(w) -> None:
             a.__dict__["x"] = 1
             s_obj.__dict__["x"] = 1
             broken.__dict__["x"] = -1
-            return [("f(1)", lambda: mod.f(1), "returned"), ("f(-1)", lambda: mod.f(-1), "violation"), ("af(-1)", lambda: mod.af(-1), "violation"),
+            b.__dict__["x"] = 1
+            return [("b.m(-20)", lambda: b.m(-20), "returned"), ("b.m(-5)", lambda: b.m(-5), "violation"), ("b.am2(-1)", lambda: b.am2(-1), "violation"),
+                    ("f(1)", lambda: mod.f(1), "returned"), ("f(-1)", lambda: mod.f(-1), "violation"), ("af(-1)", lambda: mod.af(-1), "violation"),
                     ("a.m(1)", lambda: a.m(1), "returned"), ("broken.m(1)", lambda: broken.m(1), "violation"), ("broken.am(1)", lambda: broken.am(1), "violation"),
                     ("broken.p", lambda: broken.p, "violation"), ("len(broken)", lambda: len(broken), "violation"), ("A(-1)", lambda: mod.A(-1), "violation"),
                     ("A()", lambda: mod.A(), "returned"), ("s.x = -1", lambda: setattr(s_obj, "x", -1), "violation"), ("N(-1)", lambda: mod.N(-1), "violation"),
@@ -768,6 +793,7 @@ def run_line_faults(w) -> None:
             a.__dict__["x"] = 1
             s_obj.__dict__["x"] = 1
             broken.__dict__["x"] = -1
+            b.__dict__["x"] = 1
             state.update(armed=True, count=0, target=None, at=None, skipped=False)
             clean = outcome_of(thunk)
             state["armed"] = False
@@ -777,6 +803,7 @@ def run_line_faults(w) -> None:
                 a.__dict__["x"] = 1
                 s_obj.__dict__["x"] = 1
                 broken.__dict__["x"] = -1
+                b.__dict__["x"] = 1
                 before = in_progress_snapshot()
                 state.update(armed=True, count=0, target=k, at=None, skipped=False)
                 got = outcome_of(thunk)
